@@ -400,3 +400,229 @@ def run(rep, tier):   # noqa: F811
             engines=["E2 symx (schedule integers concretised by forking)"])
     rep.cov["bounds"]["mapping"] = "pair lists of 2 cWW entries over 4 residues in which one residue has two partners; every permutation of every set of <= 4 elements"
     rep.cov["bounds"]["repeat"] = "FR3D listing of 9 lines (one symbolic) imported twice in one process"
+
+
+# ======================================================================================================
+# extensions 2: independence of the process environment and of the call history
+# ======================================================================================================
+ENV_ALPHABET = "a7_"
+ENV_INPUTS = {"pdb": "tests/488d.pdb", "cif": "tests/1ehz-assembly-1.cif"}
+
+
+def job_env(spec):
+    """the real annotator.main() on a real input with every output option; the name of the temporary copy made by util.handle_input_file
+    is a symbolic string (3 symbolic characters).  The name is realised only where it reaches a C boundary (os.fspath / str); all outputs
+    must be identical on every path -- when the name is never realised there is one path and the outputs are a constant function of it."""
+    kind, dots = spec
+    import sys
+    sys.path.insert(0, "/verif")
+    import io, os, contextlib, tempfile, shutil, types, logging, time
+    import z3
+    from symx.engine import Engine
+    from symx import bstr as B
+    from vlib import frame
+    import rnapolis.annotator as AN
+    import rnapolis.util as U
+    import rnapolis.parser as PR
+    logging.disable(logging.CRITICAL)
+    c06 = __import__("harness.c06", fromlist=["x"])
+    c06._fast_solver()
+    eng = Engine(timeout_ms=10000)
+    eng.realize_on_str = True
+    from vlib.core import REPO_SRC
+    src = os.path.join(os.path.dirname(REPO_SRC), ENV_INPUTS[kind])
+    ext = os.path.splitext(src)[1]
+    sym = B.bvar(eng, "tmpname", 3, minlen=3, charset=ENV_ALPHABET)
+    real_paths = {}
+
+    class FakeTmp(io.StringIO):
+        def __init__(self, suffix):
+            super().__init__()
+            self.name = B.BStr.const(eng, "/tmp/tmp") + sym + B.BStr.const(eng, "q0x1z" + (suffix or ""))
+            real_paths[id(self.name)] = self
+
+    real_adapter = PR.IoAdapterPy
+
+    class Adapter:
+        """contract stub: readFile(name) parses the text of the file of that name"""
+        def readFile(self, name, *a, **k):
+            f = real_paths.get(id(name))
+            if f is None:
+                return real_adapter().readFile(name, *a, **k)
+            with tempfile.NamedTemporaryFile("wt", suffix=ext, delete=False) as t:
+                t.write(f.getvalue())
+            try:
+                return real_adapter().readFile(t.name, *a, **k)
+            finally:
+                os.unlink(t.name)
+    saved = (U.tempfile, PR.IoAdapterPy, sys.argv)
+    U.tempfile = types.SimpleNamespace(NamedTemporaryFile=lambda mode="w", suffix=None, **k: FakeTmp(suffix))
+    PR.IoAdapterPy = Adapter
+    outdir = tempfile.mkdtemp(prefix="c14env")
+    t0 = time.time()
+    try:
+        def run():
+            for f in os.listdir(outdir):
+                os.unlink(os.path.join(outdir, f))
+            o = lambda n: os.path.join(outdir, n)   # noqa: E731
+            sys.argv = ["annotator", src, "--csv", o("o.csv"), "--json", o("o.json"), "--bpseq", o("o.bpseq"), "--dot", o("o.dot"), "--pml", o("o.pml"),
+                        "--inter-stem-csv", o("inter.csv"), "--stems-csv", o("stems.csv")] + list(dots)
+            buf = io.StringIO()
+            before = frame.snapshot()
+            with contextlib.redirect_stdout(buf):
+                AN.main()
+            fd = frame.diff(before, frame.snapshot())
+            files = {f: open(os.path.join(outdir, f), "rb").read().decode("utf-8", "replace") for f in sorted(os.listdir(outdir))}
+            return {"stdout": buf.getvalue(), "files": files, "frame": [list(x) for x in fd]}
+        paths = eng.explore(run, maxpaths=40)
+    finally:
+        U.tempfile, PR.IoAdapterPy, sys.argv = saved
+        shutil.rmtree(outdir, ignore_errors=True)
+    res = {"name": f"annotator.main:{kind}:{' '.join(dots) or 'default'}", "paths": len(paths), "exhausted": eng.exhausted, "queries": eng.nq, "solver_s": round(eng.tq, 3),
+           "realized": getattr(eng, "realized", 0), "wall_s": round(time.time() - t0, 1), "differs": None, "exception": None, "frame": [], "nfiles": 0}
+    outs = []
+    for path, out in paths:
+        if isinstance(out, Exception):
+            res["exception"] = f"{type(out).__name__}: {out}"
+            continue
+        res["nfiles"] = len(out["files"])
+        if out["frame"]:
+            res["frame"] = out["frame"][:3]
+        v, m, _ = eng.prove(path, z3.BoolVal(True))
+        outs.append((B.conc(sym, m) if m is not None else None, out))
+    for name_b, ob in outs[1:]:
+        name_a, oa = outs[0]
+        for k in ["stdout"] + sorted(set(oa["files"]) | set(ob["files"])):
+            va = oa["stdout"] if k == "stdout" else oa["files"].get(k)
+            vb = ob["stdout"] if k == "stdout" else ob["files"].get(k)
+            if va != vb:
+                res["differs"] = {"output": k, "names": [name_a, name_b]}
+                break
+        if res["differs"]:
+            break
+    return res
+
+
+REPLAY_ENV = '''
+import subprocess, tempfile, shutil
+src = os.path.join(os.environ.get("VERIF_REPO_SRC", "/repo/src"), "..", {src!r})
+runs = []
+for k in range(2):
+    d = tempfile.mkdtemp()
+    o = lambda n: os.path.join(d, n)
+    cmd = [sys.executable, "-m", "rnapolis.annotator", src, "--csv", o("o.csv"), "--json", o("o.json"), "--bpseq", o("o.bpseq"), "--dot", o("o.dot"), "--pml", o("o.pml"),
+           "--inter-stem-csv", o("inter.csv"), "--stems-csv", o("stems.csv")] + {dots!r}
+    env = dict(os.environ); env["PYTHONPATH"] = os.environ.get("VERIF_REPO_SRC", "/repo/src")
+    r = subprocess.run(cmd, capture_output=True, text=True, env=env, cwd=d)
+    runs.append((r.stdout, {{f: open(o(f), "rb").read() for f in sorted(os.listdir(d))}}))
+    shutil.rmtree(d)
+same = runs[0] == runs[1]
+if not same:
+    for f in runs[0][1]:
+        if runs[0][1][f] != runs[1][1].get(f): print("output", f, "differs between two runs of the same command")
+sys.exit(0 if same else 1)
+'''
+
+HISTORY_CODE = '''
+import sys, io, json, logging
+logging.disable(logging.CRITICAL)
+from rnapolis.parser import read_3d_structure
+def parse(text):
+    f = io.StringIO(text); f.name = "x.pdb"
+    s = read_3d_structure(f, None)
+    return [(str(r), r.one_letter_name, [a.name for a in r.atoms]) for r in s.residues]
+x, y = json.loads(sys.argv[1])
+if y: parse(y)
+print(json.dumps(parse(x)))
+'''
+
+REPLAY_HISTORY = '''
+import subprocess, json
+code = {code!r}
+def pdb(resname, names):
+    return "".join("HETATM%5d %-4s %3s A   1    %8.3f%8.3f%8.3f  1.00  0.00           %s\\n" % (i + 1, n if len(n) == 4 else " " + n, resname, 1.0 + 2 * i, 2.0, 3.0, n[0])
+                   for i, n in enumerate(names)) + "END\\n"
+SETS = [["N9", "C8", "N7", "C5", "C6", "N6", "N1", "C2", "N3", "C4"], ["N1", "C2", "O2", "N3", "C4", "O4", "C5", "C6"], ["O"], ["N1", "C2", "O2", "N3", "C4", "N4", "C5", "C6"]]
+texts = [pdb(rn, s) for rn in ("P5P", "HOH") for s in SETS]
+env = dict(os.environ); env["PYTHONPATH"] = os.environ.get("VERIF_REPO_SRC", "/repo/src")
+def run(x, y):
+    return subprocess.run([sys.executable, "-c", code, json.dumps([x, y])], capture_output=True, text=True, env=env).stdout
+bad = 0
+for x in texts:
+    fresh = run(x, "")
+    for y in texts:
+        if y != x and run(x, y) != fresh:
+            print("read_3d_structure gives", run(x, y).strip(), "after another file was read in the same process, and", fresh.strip(), "in a fresh process")
+            bad = 1
+            break
+    if bad: break
+sys.exit(bad)
+'''
+
+_run_prev = run
+
+
+def run(rep, tier):   # noqa: F811
+    import subprocess, tempfile, os
+    from vlib.core import Violation, VERIF, REPLAY_HEADER
+    from vlib.par import pmap, Crashed
+    _run_prev(rep, tier)
+    # (a) process environment: the temporary file name is symbolic
+    specs = [("pdb", ()), ("pdb", ("--all-dot-brackets",))]
+    if tier != "quick":
+        specs += [("pdb", ("--extended",)), ("cif", ()), ("cif", ("--extended",)), ("cif", ("--all-dot-brackets",))]
+    for sp, r in zip(specs, pmap(job_env, specs)):
+        if isinstance(r, Crashed):
+            rep.harness_error(f"environment job {sp} crashed: {r.why}")
+            continue
+        rep.add(states=r["paths"], transitions=max(r["queries"], 1), solver_s=r["solver_s"], obligations=1)
+        rep.sample({"group": r["name"], "paths": r["paths"], "name_realised": r["realized"], "output_files": r["nfiles"], "wall_s": r["wall_s"]}, cap=12)
+        if r["exception"] or r["nfiles"] < 6:
+            rep.harness_error(f"{r['name']}: {r['exception'] or 'only %d output files' % r['nfiles']}")
+            continue
+        if r["differs"]:
+            rep.add(discharged=1)
+            rep.violation(Violation("annotator.main:environment", f"{r['name']}: output {r['differs']['output']} depends on the name of the temporary copy of the input "
+                                    f"(differs for names ...{r['differs']['names'][0]}... and ...{r['differs']['names'][1]}...)",
+                                    REPLAY_ENV.format(src=ENV_INPUTS[sp[0]], dots=list(sp[1])), witness=r["differs"]))
+        elif r["exhausted"]:
+            rep.add(discharged=1, reachability_witnesses=1)
+        else:
+            rep.add(undecided=1)
+        if r["frame"]:
+            rep.cov.setdefault("frame_diffs", []).append({"where": r["name"], "diff": r["frame"]})
+    # (b) call history: frame condition on every symbolic path of the PDB reader (residue names that need the atom-based detection)
+    from harness import c08
+    fr = pmap(c08.job_pdb, [("hetero-names", "none")])[0]
+    if isinstance(fr, Crashed):
+        rep.harness_error(f"frame job crashed: {fr.why}")
+    else:
+        rep.add(states=fr["paths"], transitions=max(fr["queries"], 1), solver_s=fr["solver_s"], obligations=1)
+        if fr["frame_paths"] != fr["paths"] or not fr["paths"]:
+            rep.harness_error(f"frame condition evaluated on {fr['frame_paths']} of {fr['paths']} paths")
+        if fr["frame_diffs"]:
+            rep.cov.setdefault("frame_diffs", []).append({"where": fr["name"], "diff": fr["frame_diffs"][0]})
+        else:
+            rep.add(discharged=1)
+    # a failed frame condition is only a sufficient-condition failure: it is reported as a violation when a history that changes an output exists
+    if rep.cov.get("frame_diffs"):
+        src = REPLAY_HEADER + REPLAY_HISTORY.format(code=HISTORY_CODE)
+        with tempfile.NamedTemporaryFile("w", suffix=".py", delete=False) as t:
+            t.write(src)
+        env = dict(os.environ)
+        rc = subprocess.run([os.path.join(VERIF, ".venv/bin/python"), t.name], capture_output=True, text=True, env=env).returncode
+        os.unlink(t.name)
+        d = rep.cov["frame_diffs"][0]
+        if rc == 1:
+            rep.add(discharged=1)
+            rep.violation(Violation("parser.read_3d_structure:history", f"a call changes module-level state ({d['diff'][0][0] if d['diff'] else d}) and the output for one file depends on the files read "
+                                    "before it in the same process", REPLAY_HISTORY.format(code=HISTORY_CODE), witness=d))
+        else:
+            rep.add(undecided=1)
+            rep.sample({"note": "module-level state changes across a call, but no output difference was reproduced with the candidate histories", "diff": d})
+    rep.add(functions_encoded=["annotator.main / handle_output_arguments (every output option) with util.handle_input_file", "parser.read_3d_structure (frame condition)"],
+            stubs=["tempfile.NamedTemporaryFile -> in-memory file whose name has 3 symbolic characters over 'a7_'", "IoAdapterPy.readFile(name) -> parses the text stored under that name"])
+    rep.cov["bounds"]["environment"] = "annotator.main on tests/488d.pdb (thorough: and tests/1ehz-assembly-1.cif), all output options; temporary-file name symbolic in 3 characters"
+    rep.cov["bounds"]["history"] = "PDB files of 3 HETATM lines, 2 residues whose names need the atom-based one-letter detection; module-level mutable state compared on every path"
+    rep.assume("history independence is decided through the frame condition (module-level mutable containers of rnapolis.* are unchanged by a call); "
+               "state hidden in closures, functools caches or C extensions is outside it")
